@@ -1353,6 +1353,12 @@ func ruleCmpShape(c *Ctx) {
 				n++
 				key := fmt.Sprintf("%s: decode #%d of an input must succeed before a patch is produced", b.roleNameOf(fn), n)
 				bad := ""
+				// … and it is a decode: the codec's decoder, or a library function that does nothing
+				// but hand its two parameters to it (a helper that answers nil for the text null
+				// without decoding leaves the target as it was allocated — an empty object)
+				if g := call.Call.StaticCallee(); g != nil && g.Pkg == b.Lib && !b.codecDecodeWrapper(g, 0) {
+					bad = "the input is decoded by " + fname(g) + ", which is not a plain wrapper of the codec's decoder: what it leaves in the target when it answers nil is not known to be what the text holds"
+				}
 				for _, r := range liveReturns(fn) {
 					ei := errResultIndex(fn)
 					if ei < 0 || b.definitelyNonNilErr(retVal(r, ei), r.Block(), 0) {
